@@ -384,9 +384,14 @@ class FakeSelector(selectors._BaseSelectorImpl):  # noqa: SLF001
         if sim.suspend_until is not None and sim.clock >= sim.suspend_from:
             # the process was stopped (SIGSTOP, VM pause, a blocked loop) from suspend_from to suspend_until: the world went on - peers wrote, the
             # kernel queued - and the loop sees all of it, and every timer that fell due meanwhile, in ONE iteration after waking up
-            if sim.suspend_until > sim.clock:
+            jumped = sim.suspend_until > sim.clock
+            if jumped:
                 sim.clock = sim.suspend_until
             sim.suspend_until = None
+            if jumped:
+                # (the timeout the loop passed in was computed before the stop: whatever became due meanwhile is due NOW)
+                net.apply_due()
+                return self._ready()
         net.apply_due()
         ready = self._ready()
         if ready or (timeout is not None and timeout <= 0) or sim.loop._ready:  # noqa: SLF001
